@@ -494,6 +494,44 @@ def rule_dyn(repo):
     return r
 
 
+def _expansion_axis(res, f, st, d):
+    """the shared cost is repeated along a NEW time axis: the tensor gets a singleton axis just in front of its item axes (unsqueeze(-3) for the [n, n] items of Q,
+    unsqueeze(-2) for the [n] items of p) and only that axis is repeated.  Repeating an existing axis (Q.repeat(T, 1, 1) then unflatten) interleaves the
+    batch: entry [b, t] becomes Q[(b T + t) mod B]."""
+    item = 2 if d.endswith('Q') else 1
+    want = -(item + 1)
+    calls = [c for c in ast.walk(st.value) if isinstance(c, ast.Call) and (dotted(c.func) or (c.func.attr if isinstance(c.func, ast.Attribute) else '')).split('.')[-1]
+             in ('tile', 'expand', 'repeat', 'repeat_interleave', 'broadcast_to')]
+    for c in calls:
+        func_form = (dotted(c.func) or '').startswith('torch.')
+        recv = c.args[0] if func_form else c.func.value
+        reps = c.args[1:] if func_form else c.args
+        if len(reps) == 1 and isinstance(reps[0], (ast.Tuple, ast.List)):
+            reps = reps[0].elts
+        uns = [u for u in ast.walk(recv) if isinstance(u, ast.Call) and isinstance(u.func, ast.Attribute) and u.func.attr == 'unsqueeze' and u.args]
+        def ival(x):
+            if isinstance(x, ast.Constant):
+                return x.value
+            if isinstance(x, ast.UnaryOp) and isinstance(x.op, ast.USub) and isinstance(x.operand, ast.Constant):
+                return -x.operand.value
+            return None
+        new_axis = any(ival(u.args[0]) == want for u in uns) or any(isinstance(x, ast.Subscript) and isinstance(x.slice, ast.Tuple) and len(x.slice.elts) >= item + 1 and
+                                                                     isinstance(x.slice.elts[-(item + 1)], ast.Constant) and x.slice.elts[-(item + 1)].value is None
+                                                                     for x in ast.walk(recv))
+        pos_ok = None
+        if reps:
+            vals = [ival(r) for r in reps]
+            if len(vals) >= item + 1:
+                others = [v for i, v in enumerate(vals) if i != len(vals) + want]
+                pos_ok = vals[len(vals) + want] not in (1, -1) and all(v in (1, -1) for v in others)
+        ok = new_axis and pos_ok is not False
+        res.inst({'function': f.fq, 'expansion': src(c)[:70], 'new time axis in front of the items': new_axis, 'only that axis repeated': pos_ok}, (d, 'axis', src(c)[:70]))
+        if not ok:
+            res.add(Finding('C14.HORIZON', f, 'the horizon expansion `%s` of %s does not repeat a NEW singleton axis at position %d: repeating an existing axis (the batch) '
+                            'and regrouping interleaves the batch elements - step t of problem b gets the cost of another problem whenever the costs differ '
+                            'between batch elements' % (src(c)[:60], d, want), node=st, construct='expansion axis of ' + d))
+
+
 @guarded
 def rule_horizon(repo, tier):
     """LQR accepts a shared cost term ([B, n, n] / [B, n]) or a time-varying one ([B, T, n, n] / [B, T, n]) for Q and p INDEPENDENTLY and expands the
@@ -525,6 +563,7 @@ def rule_horizon(repo, tier):
                         gs = set().union(*guards) if guards else set()
                         ok = gs == {d}
                         res.inst({'function': f.fq, 'expansion': src(st)[:70], 'guarded by the rank of': sorted(gs), 'own rank': ok}, (d, src(st)[:70]))
+                        _expansion_axis(res, f, st, d)
                         if not ok:
                             res.add(Finding('C14.HORIZON', f, 'the horizon expansion `%s` is decided by the rank of %s, not by the rank of %s itself: a shared %s together '
                                             'with a time-varying %s is left un-expanded (or a time-varying one is expanded twice) and the documented mixed form fails'
